@@ -1,11 +1,9 @@
 SPECIFICATION Spec
 CONSTANTS
-  V = 2
-  ChainId = "tsRotateBack"
-  ShipMode = "newest"
-  Cons = FALSE
-  MaxCycles = 2
-  MaxRootUpdates = 4
+  L = 2
+  Lens = {1, 2, 3}
+  MaxCycles = 1
+  MaxRootUpdates = 2
   Times = {0}
   ClockMoves = FALSE
   EnforceChoices = {TRUE}
@@ -18,6 +16,7 @@ CONSTANTS
   CandSn <- MC_CandSn
   CandTg <- MC_CandTg
   Limit <- MC_Limit
-  Chain0 <- TheChain
-INVARIANTS Emit
+  Chain0 <- NoChain
+VIEW view
+INVARIANTS SizesBounded RequestsBounded RootRequestsBounded LegitNotRefused PinsMatch
 CHECK_DEADLOCK FALSE
